@@ -446,7 +446,12 @@ class UnitBuild:
             for mm in re.finditer(r'declare_tag_set!\(', alltext):
                 close = alltext.find(');', mm.end())
                 mc += re.findall(r'"([^"]*)"', alltext[mm.end():close if close > 0 else None])
-            locals_ = sorted(set(re.findall(r'local_name!\(\s*"([^"]*)"\s*\)', alltext)) | set(l for _, l in en) | set(mc))
+            # names inside `tag!(<a> | </b> ..)` patterns (rules.rs) reach local_name! as bare tokens
+            tagtok = []
+            for mm in re.finditer(r'\btag!\(', alltext):
+                close = match_delim(alltext, mm.end() - 1)
+                tagtok += re.findall(r'</?\s*([A-Za-z][\w-]*)\s*>', alltext[mm.end():close])
+            locals_ = sorted(set(re.findall(r'local_name!\(\s*"([^"]*)"\s*\)', alltext)) | set(l for _, l in en) | set(mc) | set(tagtok))
             nss = sorted((set(re.findall(r'\bns!\(\s*(\w*)\s*\)', alltext)) | set(n for n, _ in en) | set(re.findall(r'expanded_name!\(\s*(\w+)\s+\$', alltext))) - set(['$ns']))
             qn3 = re.findall(r'qualname!\(\s*"([^"]*)"\s+(\w+)\s+"([^"]*)"\s*\)', alltext)
             qn2 = re.findall(r'qualname!\(\s*""\s*,\s*"([^"]*)"\s*\)', alltext)
@@ -456,7 +461,8 @@ class UnitBuild:
             ap = self.atoms_part
             self.atom_table = dict(local={n: i + 1 for i, n in enumerate(locals_)}, ns={n: i + 1 for i, n in enumerate(nss)},
                                    prefix={n: i + 1 for i, n in enumerate(prefixes)})
-            m = 'macro_rules! local_name {' + ' '.join('("%s") => { %s(%d) };' % (n, ap.local_ctor, i + 1) for i, n in enumerate(locals_)) + ' }\n'
+            m = 'macro_rules! local_name {' + ' '.join('("%s") => { %s(%d) };' % (n, ap.local_ctor, i + 1) for i, n in enumerate(locals_))
+            m += ' ' + ' '.join('(%s) => { %s(%d) };' % (n, ap.local_ctor, i + 1) for i, n in enumerate(locals_) if n in set(tagtok) and re.fullmatch(r'[A-Za-z_]\w*', n)) + ' }\n'
             m += 'macro_rules! ns {' + ' '.join('(%s) => { %s(%d) };' % (n, ap.ns_ctor, i + 1) for i, n in enumerate(nss)) + ' }\n'
             if prefixes:
                 m += 'macro_rules! namespace_prefix {' + ' '.join('("%s") => { %s(%d) };' % (n, ap.prefix_ctor, i + 1) for i, n in enumerate(prefixes)) + ' }'
